@@ -1,0 +1,59 @@
+//go:build verif
+
+// Contracts for package internal/mempool (comment-only; read by /verif/cmd/govc).
+package mempool
+
+//@ func Item.GetID
+//@   pure
+//@   opt uf item_id
+//@ func Item.GetSponsor
+//@   pure
+//@ func Item.Size
+//@   pure
+
+// bounds of the pool (C23): never more than maxSize items, never more than maxSponsorSize per sponsor
+//@ spec func RI(m *Mempool) bool = gint("len", m.queue) >= 0 && gint("len", m.queue) <= m.maxSize && !isnil(m.owned) && (forall s codec.Address :: has(m.owned, s) ==> 1 <= m.owned[s] && m.owned[s] <= m.maxSponsorSize)
+
+//@ func (*Mempool).add props C23
+//@   noframe
+//@   reveal RI
+//@   requires RI(m) && m.maxSize >= 0 && m.maxSponsorSize >= 1
+//@   modifies gint("len", m.queue), gmap("items", m.eh)[], m.owned[], m.pendingSize
+//@   loop 1 invariant RI(m) && 0 <= idx1 && idx1 <= len(items)
+//@   ensures RI(m)
+
+// a sponsor's counter goes down by one, the entry disappears at zero; nothing else moves
+//@ func (*Mempool).removeFromOwned props C23
+//@   requires !isnil(m.owned)
+//@   modifies m.owned[]
+//@   ensures forall s codec.Address :: s != Item.GetSponsor(item) ==> has(m.owned, s) == old(has(m.owned, s)) && m.owned[s] == old(m.owned[s])
+//@   ensures old(has(m.owned, Item.GetSponsor(item))) && old(m.owned[Item.GetSponsor(item)]) > 1 ==> has(m.owned, Item.GetSponsor(item)) && m.owned[Item.GetSponsor(item)] == old(m.owned[Item.GetSponsor(item)]) - 1
+//@   ensures old(has(m.owned, Item.GetSponsor(item))) && old(m.owned[Item.GetSponsor(item)]) == 1 ==> !has(m.owned, Item.GetSponsor(item))
+//@   ensures !old(has(m.owned, Item.GetSponsor(item))) ==> !has(m.owned, Item.GetSponsor(item))
+
+// popNext takes the head of the queue (nothing when it is empty) and keeps the bounds
+//@ func (*Mempool).popNext props C23
+//@   noframe
+//@   reveal RI
+//@   requires RI(m)
+//@   modifies gint("len", m.queue), gmap("items", m.eh)[], m.owned[], m.pendingSize
+//@   ensures RI(m)
+//@   ensures result1 == (old(gint("len", m.queue)) > 0)
+//@   ensures result1 ==> gint("len", m.queue) == old(gint("len", m.queue)) - 1
+//@   ensures !result1 ==> gint("len", m.queue) == old(gint("len", m.queue))
+
+// the public operations run entirely under the pool's lock and keep the bounds
+//@ func (*Mempool).Add props C23
+//@   noframe
+//@   opt monitor m.mu
+//@   reveal RI
+//@   requires RI(m) && m.maxSize >= 0 && m.maxSponsorSize >= 1
+//@   modifies gint("len", m.queue), gmap("items", m.eh)[], m.owned[], m.pendingSize
+//@   ensures RI(m)
+//@ func (*Mempool).PopNext props C23
+//@   noframe
+//@   opt monitor m.mu
+//@   reveal RI
+//@   requires RI(m)
+//@   modifies gint("len", m.queue), gmap("items", m.eh)[], m.owned[], m.pendingSize
+//@   ensures RI(m)
